@@ -124,6 +124,19 @@ func TestC07_Spellings(t *testing.T) {
 		root := uni.GenDatum(t, p)
 		g := gen.NewExprGen(t, root, "")
 		var e bx.Expr
+		if !p.JSON && rapid.IntRange(0, 5).Draw(t, "nestedDoc") == 0 {
+			// a document with collections inside collection elements, so that inner quantifiers
+			// range over paths that start with an outer alias
+			inner := uni.SliceOf(uni.GenType(t, p, 1))
+			et := uni.MapOf(uni.Scalar(uni.KString), inner)
+			if rapid.Bool().Draw(t, "structElems") {
+				et = uni.StructOf(uni.Field{Name: "Ys", T: inner}, uni.Field{Name: "N", T: uni.Scalar(uni.KInt)})
+			}
+			xs := uni.GenNode(t, uni.SliceOf(et), p, 3)
+			root = &uni.Node{T: uni.MapOf(uni.Scalar(uni.KString), uni.Iface()), Keys: []*uni.Node{uni.Str("xs"), uni.Str("d")},
+				Elems: []*uni.Node{uni.InIface(xs), uni.InIface(root)}}
+			g = gen.NewExprGen(t, root, "")
+		}
 		if rapid.IntRange(0, 3).Draw(t, "quantified") == 0 {
 			// nested quantifiers whose collections are reached through outer aliases
 			g.MaxQuant = 3
